@@ -5,6 +5,8 @@ From AQ Require Import lib.Base gen.TlsDispatch model.TlsSymbolic proofs.TlsDisp
 From AQ Require Import proofs.TlsSymbolicP1 proofs.TlsSymbolicP2 proofs.TlsSymbolicP4 proofs.TlsSymbolicP5 proofs.TlsSymbolicP3.
 From AQ Require Import model.TlsTwoParty proofs.TlsTwoPartyP1 proofs.TlsTwoPartyP2.
 
+Definition psk_binders (v : ch_view) : list bytes := match ch_psk v with Some (_, bs) => bs | None => [] end.
+
 (* structural idealisation: ideal_crypto and codec_ok of the one-party theorems, plus *)
 Record ideal2 (O : oracles) : Prop := mkIdeal2 {
   i_ideal : ideal_crypto O;
@@ -14,7 +16,7 @@ Record ideal2 (O : oracles) : Prop := mkIdeal2 {
   (* a signature determines key, algorithm and signed data *)
   i_sign : forall k a d k' a' d', o_sign O k a d = o_sign O k' a' d' -> k = k' /\ a = a' /\ d = d';
   (* codecs (C17): round trips, framed ClientHello, Finished is canonical, message types *)
-  i_ch_rt : forall v, o_parse_ch O (o_build_ch O v) = POk v;
+  i_ch_rt : forall v v', o_parse_ch O (o_build_ch O v) = POk v' -> psk_binders v' = psk_binders v;
   i_cv_rt : forall v, o_parse_cv O (o_build_cv O v) = POk v;
   i_ch_fr : forall v, framed (o_build_ch O v);
   i_fin_canon : forall m vd, framed m -> o_parse_fin O m = POk vd -> m = o_build_fin O vd;
@@ -29,6 +31,7 @@ Record ideal2 (O : oracles) : Prop := mkIdeal2 {
   i_p_fin : forall m v, o_parse_fin O m = POk v -> msg_type m = 20
 }.
 
+(* (the ClientHello codec: only the binders must survive the round trip) *)
 (* the certificate belongs to the key: whatever verifies under it is the signature made with that key *)
 Definition sig_pair (O : oracles) (cert key : bytes) : Prop :=
   forall alg data sg, o_sig_verify O cert alg data sg = true -> sg = o_sign O key alg data.
@@ -71,11 +74,14 @@ Proof.
   apply (i_p_ch O I2) in E2. rewrite T20 in E2. discriminate.
 Qed.
 
-Lemma macs_of_ch : forall v, macs_of O (o_build_ch O v) = match ch_psk v with Some (_, bs) => bs | None => [] end.
+Lemma macs_of_ch : forall v x, In x (macs_of O (o_build_ch O v)) -> In x (psk_binders v).
 Proof.
-  intro v. unfold macs_of. rewrite (i_ch_rt O I2).
-  destruct (o_parse_fin O (o_build_ch O v)) eqn:E1; [| reflexivity | reflexivity].
-  apply (i_p_fin O I2) in E1. rewrite (i_t_ch O I2) in E1. discriminate.
+  intros v x H. unfold macs_of in H.
+  destruct (o_parse_fin O (o_build_ch O v)) eqn:E1;
+    [apply (i_p_fin O I2) in E1; rewrite (i_t_ch O I2) in E1; discriminate | |];
+    cbn [app] in H;
+    (destruct (o_parse_ch O (o_build_ch O v)) as [v' | |] eqn:E2; [| destruct H | destruct H]);
+    apply (i_ch_rt O I2) in E2; rewrite <- E2; exact H.
 Qed.
 
 Lemma sigs_of_other : forall m, msg_type m <> 15 -> sigs_of O m = [].
@@ -93,10 +99,10 @@ Lemma client_hello_macs : forall c x,
   exists k e h, x = ks_finished O k e /\ e = o_expand O (k_alg k) (k_secret k) L_res_binder h.
 Proof.
   intros c x H. unfold client_hello_msg in H. destruct (use_ticket c) as [t |].
-  - rewrite macs_of_ch in H. cbn [hello_with_psk ch_psk] in H. destruct H as [H | []]. subst x.
+  - apply macs_of_ch in H. cbn [psk_binders hello_with_psk ch_psk] in H. destruct H as [H | []]. subst x.
     unfold client_psk_schedule. cbn [snd]. eexists. eexists. eexists. split; [reflexivity |].
     unfold ks_derive. cbn [k_alg k_suite k_secret ks_update]. reflexivity.
-  - rewrite macs_of_ch in H. cbn [hello_base ch_psk] in H. destruct H.
+  - apply macs_of_ch in H. cbn [psk_binders hello_base ch_psk] in H. destruct H.
 Qed.
 
 Lemma client_hello_sigs : forall c, sigs_of O (client_hello_msg O c) = [].
